@@ -513,7 +513,8 @@ class Report:
         tb += meta.get("trusted_base", [])
         cov = dict(
             obligations=len(self.obligations),
-            discharged=sum(1 for o in self.obligations if o["ok"]),
+            discharged=sum(1 for o in self.obligations if o["ok"] and not o.get("skipped")),
+            skipped=[o["name"] + ": " + o["detail"] for o in self.obligations if o.get("skipped")],
             checker_cmd="cd /verif/coq && make && coqc -R . TQ props/%s.v  (driven by ./check %s --tier %s)" % (
                 ctx.pid, ctx.pid, ctx.tier),
             trusted_base=tb,
